@@ -267,3 +267,125 @@ def rf31b(run):
         run.violation(rule, lm, 'fresh thunk', 'MIR_load_module creates a thunk that is not redirected on every path (an unlinked function '
                       'would jump to an arbitrary address)', line=lm.line)
     run.min_instances(rule, 12)
+
+
+# ---------------------------------------------------------------------------------------------
+# RF42: absolute label addresses stored into lref data point into storage that lives as long as the function's code
+# ---------------------------------------------------------------------------------------------
+
+GOOD_CALLS = ('MIR_malloc', '_MIR_publish_code', '_MIR_get_bb_thunk', 'get_bb_version')
+GOOD_FIELDS = ('call_addr', 'machine_code', 'addr')
+
+
+def _origin(tu, f, e, depth=0, seen=None):
+    """classify where a pointer expression comes from: set of ('good'|'scratch'|'unknown', description)"""
+    seen = seen if seen is not None else set()
+    e = F.strip(e)
+    k = e['k']
+    te = tu.type(e)
+    if te is not None and te.kind not in ('ptr', 'array') and k not in ('CallExpr', 'ConditionalOperator'):
+        return {('good', 'integer value (no address)')}
+    if k == 'CallExpr':
+        c = e.get('callee') or ''
+        if c.startswith('VARR_') and c.endswith('addr'):
+            return {('scratch', 'VARR_ADDR of %s' % F.src(F.strip(F.call_args(e)[0]))[:40])}
+        if c in GOOD_CALLS:
+            return {('good', c)}
+        return {('unknown', 'result of %s' % c)}
+    if k == 'BinaryOperator' and e['op'] in ('+', '-'):
+        out = set()
+        for c_ in e['c']:
+            t = tu.type(F.strip(c_, explicit=False))  # a pointer cast to an integer is an offset, not an address
+            if t is not None and t.kind in ('ptr', 'array'):
+                out |= _origin(tu, f, c_, depth, seen)
+        return out
+    if k == 'ConditionalOperator':
+        return _origin(tu, f, e['c'][1], depth, seen) | _origin(tu, f, e['c'][2], depth, seen)
+    if k == 'MemberExpr':
+        if e['n'] in GOOD_FIELDS:
+            return {('good', 'field %s' % e['n'])}
+        if e['n'] == 'code':
+            return _origin(tu, f, e['c'][0], depth, seen)
+        return {('unknown', F.src(e)[:40])}
+    if k == 'DeclRefExpr':
+        key = (f.name, e['n'])
+        if key in seen:
+            return set()  # a self-referential update (p = p + d): the other definitions decide
+        if depth > 4:
+            return {('unknown', e['n'])}
+        seen.add(key)
+        out = set()
+        if e.get('dk') == 'param':
+            idx = [p['n'] for p in f.params].index(e['n'])
+            callers = 0
+            for g in tu.func_list:
+                if g.body is None:
+                    continue
+                for y in g.walk():
+                    if y['k'] == 'CallExpr' and y.get('callee') == f.name and len(F.call_args(y)) > idx:
+                        callers += 1
+                        out |= _origin(tu, g, F.call_args(y)[idx], depth + 1, seen)
+            return out or {('unknown', 'parameter %s without callers' % e['n'])}
+        for x in f.walk():
+            if x['k'] == 'BinaryOperator' and x['op'] == '=':
+                # a = b = MIR_malloc (…): follow nested assignments too
+                l = F.strip(x['c'][0])
+                if l['k'] == 'DeclRefExpr' and l['n'] == e['n']:
+                    out |= _origin(tu, f, x['c'][1], depth + 1, seen)
+                r = F.strip(x['c'][1])
+                if r['k'] == 'BinaryOperator' and r['op'] == '=' and F.strip(r['c'][0])['k'] == 'DeclRefExpr' and F.strip(r['c'][0])['n'] == e['n']:
+                    out |= _origin(tu, f, r['c'][1], depth + 1, seen)
+            if x['k'] == 'DeclStmt':
+                for d in x['decls']:
+                    if d['n'] == e['n'] and d.get('init') is not None:
+                        out |= _origin(tu, f, d['init'], depth + 1, seen)
+            if x['k'] == 'CallExpr' and x.get('callee') in GOOD_CALLS:
+                for a in F.call_args(x):
+                    a = F.strip(a)
+                    if a['k'] == 'UnaryOperator' and a['op'] == '&' and F.src(F.strip(a['c'][0])) == e['n']:
+                        out.add(('good', 'out-parameter of %s' % x['callee']))
+        return out or {('unknown', e['n'])}
+    if k == 'UnaryOperator' and e['op'] == '&':
+        return {('unknown', F.src(e)[:40])}
+    return {('unknown', F.src(e)[:40])}
+
+
+def rf42(run):
+    rule = 'RF42'
+    run.rule(rule, 'every absolute address written into the memory of an lref data item (*(void **) lref->load_addr = …) derives — through '
+                   'local assignments and parameters, followed to the callers — from storage that lives as long as the function\'s code '
+                   '(MIR_malloc\'ed interpreter code, published machine code, a basic-block thunk), never from VARR_ADDR of a context '
+                   'scratch vector that the next function overwrites or reallocates')
+    n = 0
+    for unit in ('mir', 'gen'):
+        tu = run.tu(unit)
+        for f in tu.func_list:
+            if f.body is None:
+                continue
+            for x in f.walk():
+                if x['k'] != 'BinaryOperator' or x['op'] != '=':
+                    continue
+                l = F.strip(x['c'][0])
+                if not (l['k'] == 'UnaryOperator' and l['op'] == '*' and 'load_addr' in F.src(l) and 'lref' in F.src(l)):
+                    continue
+                lt = tu.type(l)
+                if lt is None or lt.kind != 'ptr':
+                    continue  # the label-difference form stores an integer
+                n += 1
+                run.functions_analysed.add((unit, f.name))
+                org = _origin(tu, f, x['c'][1]) or {('unknown', F.src(x['c'][1])[:40])}
+                kinds = {k_ for k_, _ in org}
+                desc = sorted('%s: %s' % o for o in org)
+                if 'scratch' in kinds:
+                    run.ob(rule, (unit, f.name, x['l']), False, {'site': '%s:%d' % (f.relfile(), x['l']), 'origins': desc})
+                    run.violation(rule, f, 'address stored into lref data', '%s stores an address derived from %s into an lref data item: the '
+                                  'scratch vector is refilled/reallocated when the next function is prepared, so the stored label address '
+                                  'dangles' % (f.name, [d for k_, d in org if k_ == 'scratch'][0]), line=x['l'])
+                elif 'unknown' in kinds:
+                    run.ob(rule, (unit, f.name, x['l']), False, {'site': '%s:%d' % (f.relfile(), x['l']), 'origins': desc})
+                    run.analysis_broken(rule, '%s:%d: origin of the stored address not classified (%s)' % (f.name, x['l'], desc))
+                else:
+                    run.ob(rule, (unit, f.name, x['l']), True, {'site': '%s:%d' % (f.relfile(), x['l']), 'origins': desc})
+    if n < 3:
+        raise F.AnalysisBroken('only %d stores into lref data found (3 confirmed by hand)' % n)
+    return n
